@@ -35,6 +35,10 @@ type HostSpec struct {
 	TokenFault string `json:"token_fault,omitempty"`
 	// Accept: the registry accepts any syntactically valid token of its own (valid) or rejects everything (never)
 	Accept string `json:"accept,omitempty"` // "" = validate; "never" = always 401
+	// Retry401: what the 401 given to a request that presented a Bearer token carries instead of the
+	// usual challenge: "" = the usual challenge; "nohdr" = no Www-Authenticate at all; "negotiate" = an
+	// unsupported scheme; "malformed" = an unparsable header.
+	Retry401 string `json:"retry401,omitempty"`
 }
 
 // Triple is one (type, resource, action).
@@ -314,6 +318,16 @@ func (w *World) registry(h *HostSpec, req *http.Request, a *Arrival) *http.Respo
 	}
 	hdr := http.Header{}
 	hs, text := w.challengeHeaders(h, a.Required)
+	if strings.HasPrefix(auth, "Bearer ") {
+		switch h.Retry401 {
+		case "nohdr":
+			hs, text = nil, ""
+		case "negotiate":
+			hs, text = []string{"Negotiate"}, ""
+		case "malformed":
+			hs, text = []string{`Bearer realm="unterminated`}, ""
+		}
+	}
 	for _, x := range hs {
 		hdr.Add("Www-Authenticate", x)
 	}
